@@ -385,3 +385,29 @@ func derivesFrom(v ssa.Value, pred func(ssa.Value) bool, depth int) bool {
 	}
 	return false
 }
+
+// everyPathPasses reports whether every path from the entry of fn to target
+// passes through one of the blocks in `through`.
+func everyPathPasses(fn *ssa.Function, through map[*ssa.BasicBlock]bool, target *ssa.BasicBlock) bool {
+	if through[target] {
+		return true
+	}
+	seen := map[*ssa.BasicBlock]bool{}
+	var walk func(b *ssa.BasicBlock) bool // true if target reachable avoiding `through`
+	walk = func(b *ssa.BasicBlock) bool {
+		if through[b] || seen[b] {
+			return false
+		}
+		seen[b] = true
+		if b == target {
+			return true
+		}
+		for _, s := range b.Succs {
+			if walk(s) {
+				return true
+			}
+		}
+		return false
+	}
+	return !walk(fn.Blocks[0])
+}
